@@ -753,7 +753,7 @@ fn run_guarded(prim: &Prim) -> (String, String, String) {
 const NAMES: [&str; 12] = ["a", "b", "ab", ".a", ".b", "-", "[", "*", "a]", "sub", "?", "\\"];
 
 fn gen_dir(r: &mut Rng, plain: bool, prefix: &str, depth: usize, out: &mut Vec<Entry>) {
-    let n = if depth == 0 { 3 + r.below(6) } else { r.below(5) };
+    let n = if depth == 0 { 4 + r.below(6) } else { 1 + r.below(5) };
     let mut used: Vec<&str> = vec![];
     for _ in 0..n {
         // the last two names are rarer
@@ -879,9 +879,98 @@ impl WordGen {
     }
 }
 
-fn gen_word(r: &mut Rng) -> (String, Vec<(String, String)>) {
+/// A word that follows a real path of the tree: each name is kept (in some quoting style) or replaced
+/// by a pattern derived from it, so that most of these words match something.
+fn gen_guided(r: &mut Rng, tree: &[Entry]) -> Option<(String, Vec<(String, String)>)> {
+    if tree.is_empty() {
+        return None;
+    }
+    let path = match r.pick(tree) {
+        Entry::File(p) | Entry::Dir(p, _) | Entry::Link(p, _) => p.clone(),
+    };
     let mut g = WordGen { text: String::new(), assigns: vec![], nvars: 0 };
-    let ncomp = 1 + r.below(3);
+    match r.below(16) {
+        0 => g.text.push_str("/t/"),
+        1 => g.text.push_str("./"),
+        _ => {}
+    }
+    for (i, name) in path.split('/').enumerate() {
+        if i > 0 {
+            match r.below(12) {
+                0 => g.text.push_str("'/'"),
+                1 => g.text.push_str("\\/"),
+                2 => g.text.push_str("//"),
+                _ => g.text.push('/'),
+            }
+        }
+        let chars: Vec<char> = name.chars().collect();
+        let first = chars[0];
+        let last = *chars.last().unwrap();
+        let lit = |g: &mut WordGen, r: &mut Rng, t: &str| {
+            if t.is_empty() {
+                return;
+            }
+            // text that must stay literal: never unquoted
+            let before = g.text.len();
+            g.piece(r, t);
+            if g.text[before..] == *t && t.contains(['*', '?', '[', ']', '\\', '!']) {
+                g.text.truncate(before);
+                g.text.push_str(&format!("'{t}'"));
+            }
+        };
+        let rest: String = chars[1..].iter().collect();
+        let init: String = chars[..chars.len() - 1].iter().collect();
+        match r.below(12) {
+            0 | 1 => g.text.push_str(if first == '.' { ".*" } else { "*" }),
+            2 => {
+                lit(&mut g, r, &first.to_string());
+                g.text.push('*');
+            }
+            3 => {
+                g.text.push_str(if first == '.' { ".*" } else { "*" });
+                if chars.len() > 1 || first != '.' {
+                    lit(&mut g, r, &last.to_string());
+                }
+            }
+            4 => {
+                for (k, c) in chars.iter().enumerate() {
+                    if k == 0 && *c == '.' { g.text.push('.') } else { g.text.push('?') }
+                }
+            }
+            5 => {
+                if first == '.' || first == ']' || first == '!' || first == '^' || first == '\\' || first == '[' || first == '-' {
+                    lit(&mut g, r, &first.to_string());
+                } else {
+                    g.text.push_str(&format!("[{first}]"));
+                }
+                lit(&mut g, r, &rest);
+            }
+            6 => {
+                lit(&mut g, r, &init);
+                g.text.push_str("[!/]");
+            }
+            7 => g.piece(r, name), // possibly unquoted: a name with metacharacters becomes a pattern
+            _ => lit(&mut g, r, name),
+        }
+    }
+    if r.chance(1, 16) {
+        g.text.push('/');
+    }
+    Some((g.text, g.assigns))
+}
+
+fn gen_word(r: &mut Rng, tree: &[Entry]) -> (String, Vec<(String, String)>) {
+    if r.chance(1, 2) {
+        if let Some(w) = gen_guided(r, tree) {
+            return w;
+        }
+    }
+    let mut g = WordGen { text: String::new(), assigns: vec![], nvars: 0 };
+    let ncomp = match r.below(20) {
+        0..=8 => 1,
+        9..=15 => 2,
+        _ => 3,
+    };
     let mut first = 0;
     match r.below(14) {
         0 => g.text.push_str("/t/"),
@@ -905,7 +994,9 @@ fn gen_word(r: &mut Rng) -> (String, Vec<(String, String)>) {
                 _ => g.text.push('/'),
             }
         }
-        match r.below(10) {
+        let inner = i + 1 < ncomp;
+        match if inner { r.below(12) } else { r.below(10) } {
+            10 | 11 => g.text.push_str(*r.pick(&["*", "sub", "*", "?*", "[!.]*", ".*"])),
             0..=3 => {
                 // one productive wildcard, usually unquoted
                 let text = *r.pick(&PRODUCTIVE);
@@ -956,7 +1047,7 @@ fn main() {
     if only {
         return;
     }
-    let (ntrees, nwords) = if o.thorough() { (5_000, 100) } else { (300, 20) };
+    let (ntrees, nwords) = if o.thorough() { (5_000, 100) } else { (400, 25) };
     let mut rng = Rng::new(o.seed ^ 0xC05);
     let mut index = 0usize;
     for _ in 0..ntrees {
@@ -969,7 +1060,7 @@ fn main() {
                 continue;
             }
             let (word, assigns) = loop {
-                let (w, a) = gen_word(&mut rw);
+                let (w, a) = gen_word(&mut rw, &tree);
                 if word_ok(&w, &a) {
                     break (w, a);
                 }
